@@ -27,6 +27,21 @@ NCPU = int(os.environ.get('VERIF_JOBS', str(os.cpu_count() or 4)))
 F = fractions.Fraction
 
 
+def _use_repo():
+    """the implementation under test is the working tree at REPO (default /repo, where /venv has synphot
+    installed in editable mode); SYNPHOT_REPO=<dir> points the harness at a scratch worktree instead"""
+    if os.path.realpath(REPO) != '/repo':
+        sys.meta_path[:] = [f for f in sys.meta_path if 'editable' not in getattr(f, '__module__', '')
+                            and 'editable' not in type(f).__name__.lower()
+                            and 'editable' not in getattr(f, '__name__', '').lower()]
+        sys.path.insert(0, os.path.realpath(REPO))
+        for m in [m for m in sys.modules if m == 'synphot' or m.startswith('synphot.')]:
+            del sys.modules[m]
+
+
+_use_repo()
+
+
 # ---------------------------------------------------------------- rationals
 def q(x):
     """exact rational string of a float / int / Fraction / numpy scalar"""
